@@ -41,10 +41,10 @@ type Program struct {
 	Structs    map[string]*types.Struct
 	FieldAlias map[*types.Var]string // private field -> role name (roles_fields.go)
 	// holders (holders.go): a private struct grouping state fields of Context by value is transparent
-	HolderSubs map[string][]*types.Var // location of the holder field ("ctx.blocks") -> its sub-fields
+	HolderSubs map[string][]*types.Var   // location of the holder field ("ctx.blocks") -> its sub-fields
 	HolderOf   map[*types.Var]*types.Var // sub-field -> holder field
-	HolderType map[string]string       // holder type name -> location of the holder field
-	TypeAlias  map[string]string     // private type name -> role name
+	HolderType map[string]string         // holder type name -> location of the holder field
+	TypeAlias  map[string]string         // private type name -> role name
 
 	// callers: callee -> list of call sites (filled by callgraph.go)
 	nFuncs int
